@@ -60,42 +60,211 @@ def r1_number_classifier(chk, rule='C05.R1'):
     o, fn = ci.find_method('t_NUMBER')
     chk.subject(fn, 'SmiV2Lexer.t_NUMBER')
     tok = fn.args.args[-1].arg
-    # magnitude variable and sign variable
-    mag = sign = None
-    for st in walk_no_nested(fn):
-        if isinstance(st, ast.Assign) and isinstance(st.targets[0], ast.Name):
-            if norm(st.value) == 'abs(%s.value)' % tok:
-                mag = st.targets[0].id
-    for st in walk_no_nested(fn):
-        if isinstance(st, ast.If) and norm(st.test) == '%s.value < 0' % tok:
-            for s in st.body:
-                if isinstance(s, ast.Assign) and isinstance(s.targets[0], ast.Name) and norm(s.value) in ('1', 'True'):
-                    sign = s.targets[0].id
-    chk.ob(rule, 't_NUMBER/magnitude-and-sign', bool(mag and sign), where(mod, fn),
-           'cannot find `abs(t.value)` / sign flag')
-    if not (mag and sign):
-        return
-    got = {}
-    for st in walk_no_nested(fn):
-        if isinstance(st, ast.Assign) and norm(st.targets[0]) == '%s.type' % tok and isinstance(st.value, ast.Constant):
-            got[st.value.value] = tuple(path_conditions(st, fn))
-    t1, t2 = '%s <= UNSIGNED32_MAX' % mag, '%s <= UNSIGNED64_MAX' % mag
-    want = {
-        'NEGATIVENUMBER': ((t1, 'T'), (sign, 'T')),
-        'NEGATIVENUMBER64': ((t1, 'F'), (t2, 'T'), (sign, 'T')),
-        'NUMBER64': ((t1, 'F'), (t2, 'T'), (sign, 'F')),
-    }
-    for typ, conds in sorted(want.items()):
-        chk.ob(rule, 't_NUMBER/type %s' % typ, got.get(typ) == conds, where(mod, fn),
-               'token type %s is assigned under %s, expected %s' % (typ, got.get(typ), conds))
-    extra = sorted(set(got) - set(want))
-    chk.ob(rule, 't_NUMBER/no-other-types', not extra, where(mod, fn), 'unexpected token types %s' % extra)
-    rs = [x for x in walk_no_nested(fn) if isinstance(x, ast.Raise) and tuple(path_conditions(x, fn)) ==
-          ((t1, 'F'), (t2, 'F'))]
-    chk.ob(rule, 't_NUMBER/too-big-raises', len(rs) == 1, where(mod, fn), 'values above 2^64-1 must raise')
-    rets = [x for x in walk_no_nested(fn) if isinstance(x, ast.Return)]
-    chk.ob(rule, 't_NUMBER/returns-token', len(rets) == 1 and _key_is(rets[0].value, tok) and
-           not path_conditions(rets[0], fn), where(mod, fn), 'the token must be returned on every non-raising path')
+    # The classifier is decided by abstract interpretation over intervals: the integer line is cut at every constant
+    # the function compares with and at the oracle's limits; each piece (an interval of token values) is pushed
+    # through the statements of t_NUMBER with comparisons evaluated on the interval.  Whatever the shape of the
+    # if-chain, each piece must come out with exactly the oracle's token type (or a package error).
+    INF = float('inf')
+    consts = set([0, 2 ** 32 - 1, 2 ** 64 - 1])
+
+    def const_of(e):
+        if isinstance(e, ast.Constant) and isinstance(e.value, int) and not isinstance(e.value, bool):
+            return e.value
+        if isinstance(e, ast.Name):
+            try:
+                v = module_value(model, LEXER, e.id)
+            except Exception:
+                return None
+            return v if isinstance(v, int) and not isinstance(v, bool) else None
+        if isinstance(e, ast.UnaryOp) and isinstance(e.op, ast.USub):
+            v = const_of(e.operand)
+            return -v if v is not None else None
+        if isinstance(e, ast.BinOp) and isinstance(e.op, (ast.Add, ast.Sub)):
+            a, b = const_of(e.left), const_of(e.right)
+            if a is not None and b is not None:
+                return a + b if isinstance(e.op, ast.Add) else a - b
+        return None
+    for x in walk_no_nested(fn):
+        if isinstance(x, ast.Compare):
+            for e in [x.left] + list(x.comparators):
+                c = const_of(e)
+                if c is not None:
+                    consts.update([c, -c])
+    cuts = sorted(set(c for k in consts for c in (k - 1, k, k + 1, -k - 1, -k, -k + 1)))
+    pieces = [(-INF, cuts[0] - 1)]
+    for a, b in zip(cuts, cuts[1:]):
+        pieces.append((a, a))
+        if b - a > 1:
+            pieces.append((a + 1, b - 1))
+    pieces.append((cuts[-1], cuts[-1]))
+    pieces.append((cuts[-1] + 1, INF))
+
+    class Unknown(Exception):
+        pass
+
+    def cmp_iv(op, a, b):
+        """three-valued comparison of intervals a, b"""
+        (al, ah), (bl, bh) = a, b
+        if isinstance(op, ast.Lt):
+            return True if ah < bl else False if al >= bh else None
+        if isinstance(op, ast.LtE):
+            return True if ah <= bl else False if al > bh else None
+        if isinstance(op, ast.Gt):
+            return True if al > bh else False if ah <= bl else None
+        if isinstance(op, ast.GtE):
+            return True if al >= bh else False if ah < bl else None
+        if isinstance(op, ast.Eq):
+            return True if al == ah == bl == bh else False if ah < bl or al > bh else None
+        if isinstance(op, ast.NotEq):
+            r = cmp_iv(ast.Eq(), a, b)
+            return None if r is None else not r
+        raise Unknown('comparison %s' % type(op).__name__)
+
+    def ev(e, env):
+        c = const_of(e)
+        if c is not None:
+            return ('int', c, c)
+        if isinstance(e, ast.Constant):
+            if isinstance(e.value, bool):
+                return ('bool', e.value)
+            if isinstance(e.value, str):
+                return ('str', e.value)
+            if e.value is None:
+                return ('bool', False)
+        if isinstance(e, ast.Name) and e.id in env:
+            return env[e.id]
+        if isinstance(e, ast.Attribute) and norm(e) == '%s.value' % tok:
+            return env['@value']
+        if isinstance(e, ast.Attribute) and norm(e) == '%s.type' % tok:
+            return env['@type']
+        if isinstance(e, ast.Call) and norm(e.func) == 'abs' and len(e.args) == 1:
+            v = ev(e.args[0], env)
+            if v[0] == 'int':
+                lo, hi = v[1], v[2]
+                if lo >= 0:
+                    return v
+                if hi <= 0:
+                    return ('int', -hi, -lo)
+                return ('int', 0, max(-lo, hi))
+        if isinstance(e, ast.Call) and norm(e.func) == 'int' and len(e.args) == 1:
+            return ev(e.args[0], env)
+        if isinstance(e, ast.UnaryOp) and isinstance(e.op, ast.USub):
+            v = ev(e.operand, env)
+            if v[0] == 'int':
+                return ('int', -v[2], -v[1])
+        if isinstance(e, ast.UnaryOp) and isinstance(e.op, ast.Not):
+            t = truth(ev(e.operand, env))
+            return ('bool', None if t is None else not t)
+        if isinstance(e, ast.Compare) and len(e.ops) == 1:
+            a, b = ev(e.left, env), ev(e.comparators[0], env)
+            if a[0] == 'int' and b[0] == 'int':
+                return ('bool', cmp_iv(e.ops[0], (a[1], a[2]), (b[1], b[2])))
+        if isinstance(e, ast.BoolOp):
+            cur = ev(e.values[0], env)
+            for nxt in e.values[1:]:
+                t = truth(cur)
+                if t is None:
+                    raise Unknown('undecided operand in %s' % norm(e))
+                if isinstance(e.op, ast.And):
+                    cur = ev(nxt, env) if t else cur
+                else:
+                    cur = cur if t else ev(nxt, env)
+            return cur
+        if isinstance(e, ast.IfExp):
+            t = truth(ev(e.test, env))
+            if t is None:
+                raise Unknown('undecided test in %s' % norm(e))
+            return ev(e.body if t else e.orelse, env)
+        raise Unknown('expression %s' % norm(e)[:60])
+
+    def truth(v):
+        if v[0] == 'bool':
+            return v[1]
+        if v[0] == 'str':
+            return bool(v[1])
+        if v[0] == 'int':
+            if v[1] == v[2]:
+                return v[1] != 0
+            if v[1] > 0 or v[2] < 0:
+                return True
+            return None
+        return None
+
+    def run(body, env):
+        """-> outcome: ('ret', type) | ('raise', class) | None (fell through)"""
+        for st in body:
+            if isinstance(st, ast.Expr) and isinstance(st.value, ast.Constant):
+                continue
+            if isinstance(st, ast.Try):
+                r = run(st.body, env)
+                if r is not None:
+                    return r
+                continue
+            if isinstance(st, ast.Assign) and len(st.targets) == 1:
+                t = st.targets[0]
+                v = ev(st.value, env)
+                if isinstance(t, ast.Name):
+                    env[t.id] = v
+                elif norm(t) == '%s.value' % tok:
+                    env['@value'] = v
+                elif norm(t) == '%s.type' % tok:
+                    env['@type'] = v
+                else:
+                    raise Unknown('assignment to %s' % norm(t))
+                continue
+            if isinstance(st, ast.If):
+                t = truth(ev(st.test, env))
+                if t is None:
+                    raise Unknown('the test `%s` is not decided on this piece' % norm(st.test))
+                r = run(st.body if t else st.orelse, env)
+                if r is not None:
+                    return r
+                continue
+            if isinstance(st, ast.Raise):
+                anc = model.exc_ancestors(mod, st.exc.func if isinstance(st.exc, ast.Call) else st.exc)
+                return ('raise', anc[0] if anc else norm(st.exc)[:30], 'PySmiError' in anc)
+            if isinstance(st, ast.Return):
+                ok_ret = _key_is(st.value, tok)
+                ty = env['@type']
+                return ('ret', ty[1] if ty[0] == 'str' else None, ok_ret)
+            if isinstance(st, ast.Pass):
+                continue
+            raise Unknown('statement %s' % type(st).__name__)
+        return None
+
+    def want(lo, hi):
+        m = max(abs(lo), abs(hi))
+        small = min(abs(lo), abs(hi)) if (lo >= 0 or hi <= 0) else 0
+        neg = hi < 0
+        if small > 2 ** 64 - 1:
+            return 'raise'
+        if m <= 2 ** 32 - 1:
+            return 'NEGATIVENUMBER' if neg else 'NUMBER'
+        if small > 2 ** 32 - 1 and m <= 2 ** 64 - 1:
+            return 'NEGATIVENUMBER64' if neg else 'NUMBER64'
+        return None     # the piece straddles a limit (cannot happen: the limits are cuts)
+    bad, npieces = [], 0
+    for lo, hi in pieces:
+        w = want(lo, hi)
+        if w is None:
+            continue
+        npieces += 1
+        env = {'@value': ('int', lo, hi), '@type': ('str', 'NUMBER')}
+        try:
+            r = run(fn.body, env)
+        except Unknown as e:
+            bad.append(('values %s..%s' % (lo, hi), 'cannot be decided: %s' % e))
+            continue
+        if r is None:
+            got = 'no token returned'
+        elif r[0] == 'raise':
+            got = 'raise' if r[2] else 'raise of a foreign exception %s' % r[1]
+        else:
+            got = r[1] if r[2] else 'something else than the token returned'
+        if got != w:
+            bad.append(('values %s..%s' % (lo, hi), 'come out as %s, expected %s' % (got, w)))
+    chk.ob(rule, 't_NUMBER/classification-by-magnitude', not bad, where(mod, fn),
+           '; '.join('%s %s' % b for b in bad[:4]) or 'all %d pieces of the integer line classified as specified' % npieces)
     # the regex accepts an optional minus and digits only
     r = [x for x in lm.rules['INITIAL'] if x.name == 't_NUMBER'][0]
     chk.ob(rule, 't_NUMBER/regex', r.pattern == '-?[0-9]+', LEXER, 'regex %r' % r.pattern)
@@ -841,6 +1010,72 @@ def r6_constraints_macro(chk):
     chk.floor('C05.R6', 5, 'three branches of the macro')
 
 
+
+def ir_walk_ordered(fn):
+    from rules.C16 import walk_ordered
+    return walk_ordered(fn)
+
+
+def r13_labels_compared_as_written(chk):
+    """Enumeration and BITS labels are kept exactly as the MIB spells them (genEnumSpec / genBits store them verbatim,
+    hyphens included).  A DEFVAL label is therefore compared with them - and emitted - as written: a value that went
+    through transOpers() (hyphen -> underscore) no longer matches `not-ready`."""
+    model = chk.model
+    ci = model.cls(INTER, 'IntermediateCodeGen')
+    o, fn = ci.find_method('genDefVal')
+    chk.subject(fn, 'IntermediateCodeGen.genDefVal')
+    chk.doc('C05.R13', 'genDefVal: the value tested against the enumeration / BITS labels of the base type '
+                       '(`x in dict(<base type>[1])`) and stored as an enum / bits default is the DEFVAL as written: no '
+                       'assignment on the way replaces it by self.transOpers(...) of itself')
+    dp = fn.args.args[1].arg
+    # names that hold the clause value: assigned from <data>[0] (or copies of such names)
+    raw = set()
+    normed = {}
+    for st in ir_walk_ordered(fn):
+        if isinstance(st, ast.Assign) and len(st.targets) == 1 and isinstance(st.targets[0], ast.Name):
+            v = st.value
+            if norm(v) == '%s[0]' % dp or (isinstance(v, ast.Name) and v.id in raw):
+                raw.add(st.targets[0].id)
+            elif isinstance(v, ast.Call) and common.is_self_attr(v.func, 'transOpers') and v.args and \
+                    isinstance(v.args[0], ast.Name) and v.args[0].id in raw and st.targets[0].id in raw:
+                normed[st.targets[0].id] = st
+    uses = []
+    for n in walk_no_nested(fn):
+        if isinstance(n, ast.Compare) and len(n.ops) == 1 and isinstance(n.ops[0], (ast.In, ast.NotIn)) and \
+                isinstance(n.comparators[0], ast.Call) and norm(n.comparators[0].func) == 'dict' and \
+                isinstance(n.left, ast.Name):
+            uses.append(n)
+    chk.ob('C05.R13', 'genDefVal/label-tests-found', len(uses) >= 2, where(ci.mod, fn),
+           '%d membership tests against dict(<enumeration>) found' % len(uses))
+    for n in uses:
+        nm = n.left.id
+        src = nm
+        # comprehension variables iterate the raw list
+        comp = n
+        while comp is not None and not isinstance(comp, (ast.ListComp, ast.GeneratorExp)):
+            comp = getattr(comp, '_parent', None)
+        if comp is not None and any(isinstance(g.target, ast.Name) and g.target.id == nm for g in comp.generators):
+            g = [g for g in comp.generators if isinstance(g.target, ast.Name) and g.target.id == nm][0]
+            src = g.iter.id if isinstance(g.iter, ast.Name) else nm
+        bad = normed.get(src)
+        chk.ob('C05.R13', 'genDefVal/`%s`' % norm(n)[:50], src in raw and bad is None and
+               (bad is None or bad.lineno > n.lineno), where(ci.mod, n),
+               'the label compared with the enumeration is %s' % (
+                   'normalised first (`%s`): hyphenated labels never match' % norm(bad)[:60] if bad is not None else
+                   'not the DEFVAL value as written'))
+
+
+
+def r12_literals_reach_the_generators_as_written(chk):
+    """hex and binary literals are converted by the code generators from the digits the MIB wrote: the lexer must not
+    trim or rewrite them (shared with C02.R4)"""
+    from rules.C02 import r4_token_values
+    common.reuse(chk, r4_token_values, ('C02.R4',), 'C05.R12',
+                 'among the lexer rules only t_NUMBER assigns t.value; HEX_STRING / BIN_STRING tokens carry the literal '
+                 'exactly as written (leading zeros included), so range bounds and DEFVALs are converted from the '
+                 'digits of the text (C02.R4)', floor=2)
+
+
 RULES = [r1_number_classifier, r2_value_alternatives, r3_literal_conversion, r4_ranges, r5_enum_bits,
          r7_base_type_walk, r8_defval, r9_syntax_productions, r10_collectors, r11_guard_slice_agreement,
-         r12_defval_decision_table, r6_constraints_macro]
+         r12_defval_decision_table, r6_constraints_macro, r13_labels_compared_as_written, r12_literals_reach_the_generators_as_written]
